@@ -55,6 +55,7 @@ RETURN_CHOICES = [
     {"return_": ("update",)},
     {"return_update": False, "return_predict_err": False},
     {"likelihood_contributions": False},
+    {"return_": ()},
 ]
 
 
